@@ -420,7 +420,7 @@ HASHABLE_LEAVES = ['int', 'float', 'complex', 'str', 'bytes', 'bool', 'none', 'd
 CORE_LEAVES = ['int', 'float', 'str', 'bool', 'none', 'bytes', 'decimal', 'any']
 KEY_LEAVES = ['str', 'int', 'float', 'enum_str', 'lit_str', 'date']
 
-CONDS = ['positive', 'len_le2', 'nonempty', 'raises', 'or_raises', 'len_0']
+CONDS = ['positive', 'len_le2', 'nonempty', 'raises', 'or_raises', 'len_0', 'le_m']
 EXT_CONDS = ['nonbool', 'even']       # user predicates: returns a non-bool truthy/falsy value; a pure parity test
 
 
@@ -436,6 +436,8 @@ def cond_obj(name):
             c = A.NonEmpty
         elif name == 'len_0':
             c = A.len_range(max=0)          # a bound that is falsy: still a bound
+        elif name == 'le_m':
+            c = A.val_range(max='m')        # a one-sided range over an ordered value that is not a number
         elif name == 'raises':
             def boom(v):
                 raise PredicateBoom("predicate exploded")       # not in any builtin exception family
@@ -472,6 +474,8 @@ def cond_eval(name, image):
             return len(image) != 0
         if name == 'len_0':
             return len(image) <= 0
+        if name == 'le_m':
+            return bool(image <= 'm')
         if name in ('raises', 'or_raises'):
             return 'raise'
     except Exception:
